@@ -7,6 +7,7 @@
 //         xrff <variant> <texthex|-> <filter>
 //         line <texthex|-> <delim> <trim> <keep>
 //         path <variant> <read|read_csv|read_xrff|prob> <file name>     (reading BY FILE NAME)
+//         hist <variant> <k> <step>...                                 (several reads on one dataframe object)
 //         (<variant> is for the model only and is ignored here)
 // output: OK ret=<n> COLS=<name>:<dom>:<state>,..;.. CLS=<label>=<id>,.. EX=<out>|<in>,..;..
 //            [VARS=<name>:<id>:<cat>;.. RUN=<v>,..;..]  [DOM <A-token> <I-token>]
@@ -288,10 +289,66 @@ std::string run_path(const std::vector<std::string> &w)
   return out + dom;
 }
 
+std::string exn_name(const std::exception &e)
+{
+  if (dynamic_cast<const exception::data_format *>(&e)) return "data_format";
+  if (dynamic_cast<const exception::insufficient_data *>(&e)) return "insufficient_data";
+  if (dynamic_cast<const std::invalid_argument *>(&e)) return "invalid_argument";
+  if (dynamic_cast<const std::out_of_range *>(&e)) return "out_of_range";
+  if (dynamic_cast<const std::bad_variant_access *>(&e)) return "bad_variant_access";
+  if (dynamic_cast<const std::bad_alloc *>(&e)) return "bad_alloc";
+  return std::string("other:") + typeid(e).name();
+}
+
+// Several reads on ONE dataframe object:  hist <variant> <k> <step>...   step: c/<texthex>/<delim>/<hdr>/<trim>/<out>
+// or x/<texthex>.  Output: HIST S=<outcome>,.. <frame after the last step> DOMS=<A>|<I>;..  (one DOM per x step)
+std::string run_hist(const std::vector<std::string> &w)
+{
+  dataframe d;
+  std::string outcomes, doms;
+  const std::size_t k(std::stoul(w[2]));
+  for (std::size_t i(0); i < k && 3 + i < w.size(); ++i)
+  {
+    const auto f(split(w[3 + i], '/'));
+    try
+    {
+      std::size_t n(0);
+      if (f[0] == "c" && f.size() == 6)
+      {
+        std::istringstream is(unhex(f[1]));
+        dataframe::params p;
+        p.dialect.delimiter = static_cast<char>(std::stoi(f[2]));
+        const int h(std::stoi(f[3]));
+        p.dialect.has_header = h < 0 ? pocket_csv::dialect::GUESS_HEADER
+                               : h == 0 ? pocket_csv::dialect::NO_HEADER : pocket_csv::dialect::HAS_HEADER;
+        p.dialect.trim_ws = f[4] == "1";
+        if (f[5] == "-1") p.no_output(); else p.output(static_cast<std::size_t>(std::stoull(f[5])));
+        n = d.read_csv(is, p);
+      }
+      else if (f[0] == "x" && f.size() == 2)
+      {
+        const std::string text(unhex(f[1]));
+        const std::string dom(show_dom(text));          // "DOM <A> <I>"
+        const auto dw(split(dom));
+        doms += dw[1] + "|" + dw[2] + "!";
+        std::istringstream is(text);
+        n = d.read_xrff(is, dataframe::params());
+      }
+      else
+        return "BADLINE";
+      outcomes += "ok" + std::to_string(n) + ",";
+    }
+    catch (const std::exception &e) { outcomes += "exn:" + exn_name(e) + ","; }
+  }
+  return "HIST S=" + outcomes + " " + show_df(d) + " DOMS=" + doms;
+}
+
 std::string run_line(const std::vector<std::string> &w)
 {
   if (w[0] == "path" && w.size() == 4)
     return run_path(w);
+  if (w[0] == "hist" && w.size() >= 3)
+    return run_hist(w);
   if (w[0] == "csv" && w.size() == 8)
   {
     std::istringstream is(unhex(w[2]));
@@ -301,8 +358,8 @@ std::string run_line(const std::vector<std::string> &w)
     p.dialect.has_header = h < 0 ? pocket_csv::dialect::GUESS_HEADER
                            : h == 0 ? pocket_csv::dialect::NO_HEADER : pocket_csv::dialect::HAS_HEADER;
     p.dialect.trim_ws = w[5] == "1";
-    const long o(std::stol(w[6]));
-    if (o < 0) p.no_output(); else p.output(static_cast<std::size_t>(o));
+    // the output index is a std::size_t: every value up to SIZE_MAX is admissible ("-1" = none)
+    if (w[6] == "-1") p.no_output(); else p.output(static_cast<std::size_t>(std::stoull(w[6])));
     p.filter = parse_filter(w[7]);
     dataframe d;
     const auto n(d.read_csv(is, p));
